@@ -26,6 +26,16 @@ class Run:
         self.seed = C.seed()
         self.t0 = time.time()
         self.replay_in = replay
+        if replay:
+            # a replay re-runs the check with the seed and tier the violation was found under: the generators are functions of the seed
+            # alone, so the same inputs (the recorded one among them) are produced again and judged against the tree as it is now
+            try:
+                with open(replay) as f:
+                    ro = json.load(f)
+                self.seed = int(ro.get("seed", self.seed))
+                self.tier = ro.get("tier", self.tier) if ro.get("tier") in ("quick", "thorough") else self.tier
+            except (OSError, ValueError):
+                pass
         self.wd = C.workdir(pid)
         self.violations = []
         self.known_lines = []
@@ -69,6 +79,8 @@ class Run:
         path = os.path.join(C.REPLAY, name)
         replay_obj = dict(replay_obj)
         replay_obj.setdefault("property", self.pid)
+        replay_obj.setdefault("seed", self.seed)
+        replay_obj.setdefault("tier", self.tier)
         replay_obj.setdefault("replay_cmd", f"./check {self.pid} --replay {path}")
         with open(path, "w") as f:
             json.dump(replay_obj, f, indent=1, default=str)
